@@ -131,10 +131,20 @@ let run_heap toks =
     print_endline (Buffer.contents out)
   with Stop why -> print_endline (Buffer.contents out ^ " MODEL-" ^ why))
 
-let parse_tv s = let (a, b) = split2 '.' s in { tv_sec = z_of_int (int_of_string a); tv_usec = z_of_int (int_of_string b) }
-let show_tv tv = show_z tv.tv_sec ^ "." ^ show_z tv.tv_usec
-let tv_lt a b = let c x = int_of_z x in
-  c a.tv_sec < c b.tv_sec || (c a.tv_sec = c b.tv_sec && c a.tv_usec < c b.tv_usec)
+(* decimal text <-> Z over the whole range of a 64-bit time_t (OCaml's int has 63 bits only) *)
+let z_of_dec s =
+  let neg = String.length s > 0 && s.[0] = '-' in
+  let mag = if neg then String.sub s 1 (String.length s - 1) else s in
+  z_of_hex ((if neg then "-" else "") ^ Printf.sprintf "%Lx" (Int64.of_string ("0u" ^ mag)))
+let dec_of_z = function
+  | Z0 -> "0"
+  | Zpos p -> Printf.sprintf "%Lu" (Int64.of_string ("0x" ^ hex_of_n (Npos p)))
+  | Zneg p -> "-" ^ Printf.sprintf "%Lu" (Int64.of_string ("0x" ^ hex_of_n (Npos p)))
+let i64_of_z z = Int64.of_string (dec_of_z z)
+let parse_tv s = let (a, b) = split2 '.' s in { tv_sec = z_of_dec a; tv_usec = z_of_dec b }
+let show_tv tv = dec_of_z tv.tv_sec ^ "." ^ dec_of_z tv.tv_usec
+let tv_lt a b = let c x y = Int64.compare (i64_of_z x) (i64_of_z y) in
+  c a.tv_sec b.tv_sec < 0 || (c a.tv_sec b.tv_sec = 0 && c a.tv_usec b.tv_usec < 0)
 
 let run_tq toks =
   Hashtbl.reset live;
